@@ -1,0 +1,98 @@
+//go:build verif
+
+package container
+
+// Contracts for the deductive verifier in /verif (govc); comments only.
+
+/*@
+// ---------------------------------------------------------------------------
+// RingBuffer.  Abstract view (oldest first): rbLen elements rbAt(0..rbLen).
+// Elements of the type parameter are abstract values; 0 is the zero value.
+
+spec fn rbInv(buf []byte, cp int, cur int, full bool) bool =
+  cp == len(buf) && 0 <= cur &&
+  (len(buf) == 0 ? (cur == 0 && !full) : cur < len(buf)) &&
+  (!full ==> (forall i in cur..len(buf): buf[i] == 0))
+spec fn rbLen(buf []byte, cur int, full bool) int = full ? len(buf) : cur
+spec fn rbAt(buf []byte, cur int, full bool, j int) int =
+  full ? buf[cur + j < len(buf) ? cur + j : cur + j - len(buf)] : buf[j]
+
+func NewRingBuffer
+  ensures created: rb != nil && fresh(rb) && len(rb.buf) == size && rb.cur == 0 && !rb.full
+  ensures inv: rbInv(rb.buf, cap(rb.buf), rb.cur, rb.full)
+
+func (*RingBuffer).Push
+  requires rb != nil && rbInv(rb.buf, cap(rb.buf), rb.cur, rb.full)
+  ensures inv: rbInv(rb.buf, cap(rb.buf), rb.cur, rb.full) && rb.buf == old(rb.buf)
+  ensures zero_capacity: len(rb.buf) == 0 ==> rb.cur == old(rb.cur) && rb.full == old(rb.full)
+  ensures grows: len(rb.buf) > 0 && !old(rb.full) && old(rb.cur) + 1 < len(rb.buf) ==>
+    rbLen(rb.buf, rb.cur, rb.full) == old(rb.cur) + 1 &&
+    (forall j in 0..old(rb.cur): rbAt(rb.buf, rb.cur, rb.full, j) == old(rbAt(rb.buf, rb.cur, rb.full, j))) &&
+    rbAt(rb.buf, rb.cur, rb.full, old(rb.cur)) == e
+  ensures fills: len(rb.buf) > 0 && !old(rb.full) && old(rb.cur) + 1 == len(rb.buf) ==>
+    rbLen(rb.buf, rb.cur, rb.full) == len(rb.buf) &&
+    (forall j in 0..old(rb.cur): rbAt(rb.buf, rb.cur, rb.full, j) == old(rbAt(rb.buf, rb.cur, rb.full, j))) &&
+    rbAt(rb.buf, rb.cur, rb.full, old(rb.cur)) == e
+  ensures slides: old(rb.full) ==>
+    rbLen(rb.buf, rb.cur, rb.full) == len(rb.buf) &&
+    (forall j in 0..len(rb.buf) - 1: rbAt(rb.buf, rb.cur, rb.full, j) == old(rbAt(rb.buf, rb.cur, rb.full, j + 1))) &&
+    rbAt(rb.buf, rb.cur, rb.full, len(rb.buf) - 1) == e
+
+func (*RingBuffer).Len
+  requires rb != nil && rbInv(rb.buf, cap(rb.buf), rb.cur, rb.full)
+  ensures count: l == rbLen(rb.buf, rb.cur, rb.full)
+
+func (*RingBuffer).Current
+  requires rb != nil ==> rbInv(rb.buf, cap(rb.buf), rb.cur, rb.full)
+  ensures nil_or_empty: (rb == nil || len(rb.buf) == 0) ==> e == 0
+  ensures oldest_when_full: rb != nil && rb.full ==> e == rbAt(rb.buf, rb.cur, rb.full, 0)
+  ensures zero_when_not_full: rb != nil && !rb.full ==> e == 0
+
+func (*RingBuffer).Clear
+  requires rb != nil && rbInv(rb.buf, cap(rb.buf), rb.cur, rb.full)
+  ensures as_new: rb.cur == 0 && !rb.full && rb.buf == old(rb.buf) && rbInv(rb.buf, cap(rb.buf), rb.cur, rb.full)
+
+func (*RingBuffer).splitCur
+  requires rb != nil && rbInv(rb.buf, cap(rb.buf), rb.cur, rb.full)
+  ensures covers_view: len(before) + len(after) == rbLen(rb.buf, rb.cur, rb.full)
+  ensures before_is_oldest: forall j in 0..len(before): before[j] == rbAt(rb.buf, rb.cur, rb.full, j)
+  ensures after_follows: forall j in 0..len(after): after[j] == rbAt(rb.buf, rb.cur, rb.full, len(before) + j)
+
+// Range / ReverseRange: the callback log (cbcalls, cbarg, cbres) records the
+// calls made to f in order.  f is called on the view oldest first (newest
+// first for ReverseRange) until it returns false or the view is exhausted.
+func (*RingBuffer).Range
+  requires rb != nil && rbInv(rb.buf, cap(rb.buf), rb.cur, rb.full)
+  ensures count: cbcalls() <= rbLen(rb.buf, rb.cur, rb.full)
+  ensures oldest_first: forall k in 0..cbcalls(): cbarg(k, 0) == rbAt(rb.buf, rb.cur, rb.full, k)
+  ensures continued_while_true: forall k in 0..cbcalls() - 1: cbres(k)
+  ensures stops_only_on_false: cbcalls() < rbLen(rb.buf, rb.cur, rb.full) ==> cbcalls() >= 1 && !cbres(cbcalls() - 1)
+  loop 0
+    invariant cbcalls() == rangeindex + 1
+    invariant forall k in 0..cbcalls(): cbarg(k, 0) == before[k]
+    invariant forall k in 0..cbcalls(): cbres(k)
+  loop 1
+    invariant cbcalls() == len(before) + rangeindex + 1
+    invariant forall k in 0..len(before): cbarg(k, 0) == before[k]
+    invariant forall k in 0..rangeindex + 1: cbarg(len(before) + k, 0) == after[k]
+    invariant forall k in 0..cbcalls(): cbres(k)
+
+func (*RingBuffer).ReverseRange
+  requires rb != nil && rbInv(rb.buf, cap(rb.buf), rb.cur, rb.full)
+  ensures count: cbcalls() <= rbLen(rb.buf, rb.cur, rb.full)
+  ensures newest_first: forall k in 0..cbcalls(): cbarg(k, 0) == rbAt(rb.buf, rb.cur, rb.full, rbLen(rb.buf, rb.cur, rb.full) - 1 - k)
+  ensures continued_while_true: forall k in 0..cbcalls() - 1: cbres(k)
+  ensures stops_only_on_false: cbcalls() < rbLen(rb.buf, rb.cur, rb.full) ==> cbcalls() >= 1 && !cbres(cbcalls() - 1)
+  loop 0
+    invariant -1 <= i && i < len(after) && cbcalls() == len(after) - 1 - i
+    invariant len(before) + len(after) == rbLen(rb.buf, rb.cur, rb.full)
+    invariant forall k in 0..cbcalls(): cbarg(k, 0) == rbAt(rb.buf, rb.cur, rb.full, rbLen(rb.buf, rb.cur, rb.full) - 1 - k)
+    invariant forall k in 0..cbcalls(): cbres(k)
+    decreases i + 1
+  loop 1
+    invariant -1 <= i && i < len(before) && cbcalls() == len(after) + len(before) - 1 - i
+    invariant len(before) + len(after) == rbLen(rb.buf, rb.cur, rb.full)
+    invariant forall k in 0..cbcalls(): cbarg(k, 0) == rbAt(rb.buf, rb.cur, rb.full, rbLen(rb.buf, rb.cur, rb.full) - 1 - k)
+    invariant forall k in 0..cbcalls(): cbres(k)
+    decreases i + 1
+@*/
